@@ -130,8 +130,39 @@ def build():
          ])
     u.close('}')
 
+    # ---- what the generated clients accept as a request: a bare message / stream, or a Request carrying the caller's metadata ----
+    u.raw('''
+pub trait IntoRequest<T> { fn into_request(self) -> Request<T>; }
+// the `T: Stream + Send + 'static` bound of the two streaming impls, as a marker (Request<T> is not a stream)
+pub trait StreamLike {}
+pub trait IntoStreamingRequest { type Stream; fn into_streaming_request(self) -> Request<Self::Stream>; }
+''')
+    PI = ['C02', 'C08', 'C12']
+    fresh = 'r.message == self && r.metadata.headers@ == %s && r.extensions == Extensions::empty_spec()' % common.EMPTY
+    u.fn(RQ, 'into_request', within='impl<T> IntoRequest<T> for T', header='impl<T> IntoRequest<T> for T {', close=True, display='IntoRequest for T::into_request', props=PI,
+         ensures=[Clause('I1_a_bare_message_is_wrapped_in_a_fresh_request', fresh, PI)])
+    u.fn(RQ, 'into_request', within='impl<T> IntoRequest<T> for Request<T>', header='impl<T> IntoRequest<T> for Request<T> {', close=True, display='IntoRequest for Request<T>::into_request', props=PI,
+         ensures=[Clause('I2_a_request_is_passed_on_as_it_is_with_its_metadata_and_extensions', 'r == self', PI)])
+    nob = [lambda t: t.sub_code('R12', r'\bwhere\b[^{]*', '')]
+    u.fn(RQ, 'into_streaming_request', within='impl<T> IntoStreamingRequest for T', header='impl<T: StreamLike> IntoStreamingRequest for T {\n    type Stream = T;', close=True,
+         display='IntoStreamingRequest for T::into_streaming_request', props=PI, sig_edits=nob,
+         ensures=[Clause('I3_a_bare_stream_is_wrapped_in_a_fresh_request', fresh, PI)])
+    u.fn(RQ, 'into_streaming_request', within='impl<T> IntoStreamingRequest for Request<T>', header='impl<T: StreamLike> IntoStreamingRequest for Request<T> {\n    type Stream = T;', close=True,
+         display='IntoStreamingRequest for Request<T>::into_streaming_request', props=PI, sig_edits=nob,
+         ensures=[Clause('I4_a_request_of_a_stream_is_passed_on_as_it_is', 'r == self', PI)])
+    u._emit('impl<T> Request<T> {'); u._open_header = 'impl<T> Request<T> {'
+    u.fn(RQ, 'get_mut', within='impl<T> Request<T>', props=PI, display='Request::get_mut',
+         ensures=[Clause('borrow_msg', '*r == old(self).message && *final(r) == final(self).message && final(self).metadata == old(self).metadata && final(self).extensions == old(self).extensions', PI)])
+    u.fn(RQ, 'extensions_mut', within='impl<T> Request<T>', props=PI, display='Request::extensions_mut',
+         ensures=[Clause('borrow_ext', '*r == old(self).extensions && *final(r) == final(self).extensions && final(self).metadata == old(self).metadata && final(self).message == old(self).message', PI)])
+    u.close('}')
+
     u._emit('impl<T> Response<T> {'); u._open_header = 'impl<T> Response<T> {'
     PR = ['C08', 'C03', 'C02']
+    u.fn(RS, 'get_mut', within='impl<T> Response<T>', props=PR, display='Response::get_mut',
+         ensures=[Clause('borrow_msg', '*r == old(self).message && *final(r) == final(self).message && final(self).metadata == old(self).metadata && final(self).extensions == old(self).extensions')])
+    u.fn(RS, 'metadata_mut', within='impl<T> Response<T>', props=PR, display='Response::metadata_mut',
+         ensures=[Clause('borrow_md', '*r == old(self).metadata && *final(r) == final(self).metadata && final(self).message == old(self).message && final(self).extensions == old(self).extensions')])
     u.fn(RS, 'new', within='impl<T> Response<T>', props=PR, ensures=[Clause('fields', 'r.message == message && r.metadata.headers@ == %s && r.extensions == Extensions::empty_spec()' % common.EMPTY)])
     u.fn(RS, 'into_parts', within='impl<T> Response<T>', props=PR, ensures=[Clause('fields', 'r.0 == self.metadata && r.1 == self.message && r.2 == self.extensions')])
     u.fn(RS, 'from_parts', within='impl<T> Response<T>', props=PR, ensures=[Clause('fields', 'r.metadata == metadata && r.extensions == extensions && r.message == message')])
